@@ -24,7 +24,7 @@ def refused(err):
 # tensordict arithmetic (td + 1, td * td, -td, td.abs()) goes through torch._foreach_* kernels, for which this torch has no
 # batching rule ("Batching rule not implemented for aten::_foreach_add"): functorch refuses such functions outright, so
 # arithmetic is expressed through apply / per-entry tensor arithmetic, which functorch can batch.
-SAFE_OPS = ["clone", "setkey_plus", "set_nested", "getset", "transpose", "permute",
+SAFE_OPS = ["update_inplace", "set_inplace", "clone", "setkey_plus", "set_nested", "getset", "transpose", "permute",
             "unsqueeze", "squeeze", "flatten", "index_int", "index_slice", "index_ell", "index_tuple", "sum", "amax", "stack", "cat",
             "select", "exclude", "apply", "named_apply", "unbind_first", "reshape", "expand", "roundtrip_dict"]
 
@@ -92,6 +92,14 @@ def check_programs(R):
         locked = rng.random() < 0.4
         sl = take(progs.base_td(shape), ind, 0)
         prog = gen_prog(rng, sl, rng.randrange(1, 6))
+        if locked:
+            # the batched view of a locked tensordict is locked: structural in-place edits are refused (by design)
+            prog = [(nm, a) for nm, a in prog if nm not in progs.INPLACE_OPS] or [("clone", ())]
+        if kind != "regular" and rng.random() < 0.5 and not locked:
+            # write-through stream: only in-place edits of the vmapped object
+            leaf = rng.choice(["a"])
+            prog = [rng.choice([("update_inplace", (leaf, rng.randrange(2, 4))), ("set_inplace", (leaf, rng.randrange(1, 4)))])
+                    for _ in range(rng.randrange(1, 4))]
         out_rank = len(progs.run_program(sl, prog).batch_size)
         out_dim = rng.randrange(0, out_rank + 1)
         case = {"kind": "program", "shape": list(shape), "container": kind, "in_dim": in_dim, "out_dim": out_dim, "named": named,
@@ -108,7 +116,13 @@ def check_programs(R):
         td = subject(kind, shape, named, locked)
         got = call(lambda: progs.observe(torch.vmap(lambda x: progs.run_program(x, prog), in_dims=in_dim, out_dims=out_dim)(td)))
         sdim = {"regular": None, "lazy": 0, "lazy-last": rank - 1}[kind]
-        sig = {"kind": "program", "container": "lazy" if kind.startswith("lazy") else kind, "vmapped_dim_is_stack_dim": sdim == ind}
+        only_inplace = all(nm in progs.INPLACE_OPS for nm, _ in prog)
+        if only_inplace:
+            R.count("program:only-inplace-ops")
+        # D33 concerns operations that build a NEW lazy stack from the vmapped one; programs made only of in-place ops
+        # return the vmapped object itself and are right on the unchanged tree
+        sig = {"kind": "program", "container": "lazy" if kind.startswith("lazy") else kind, "vmapped_dim_is_stack_dim": sdim == ind,
+               "builds_new_stack": not only_inplace}
         if got[0] != "ok" and not refused(got[1]):
             R.oracle_fail("vmap-vs-loop:raises", case, {"error": got[1]}, dict(sig, what="raises", named=named, err=got[1].split(":")[0]))
             continue
@@ -249,6 +263,44 @@ def check_multi_arg_and_nested(R):
             R.traces += 1
 
 
+def check_unbatched_arg_reuse(R):
+    """a tensordict passed with in_dims=None is handed to the function as a fresh shallow copy on every call: what one
+    vmapped function writes into it must not be visible to a later vmap call on the same (locked or unlocked) tensordict"""
+    for locked in (True, False):
+        for shape in [(2, 3), (3,), (2, 2)]:
+            td = progs.base_td(shape)
+            other = progs.base_td(shape[1:]) if len(shape) > 1 else progs.base_td((1,))[0]
+            if locked:
+                other.lock_()
+            n = shape[0]
+            case = {"kind": "unbatched-arg-reuse", "shape": list(shape), "locked": locked}
+            R.case(("unbatched-reuse", shape, locked), nontrivial=True)
+            R.count("unbatched-arg-reuse")
+
+            def f1(x, y):
+                y.set("tmp", x["a"] * 2)
+                return y["tmp"] + 1
+
+            def f2(x, y):
+                return x["a"] * 0 + len(list(y.keys())), y.get("tmp", x["a"] * 0 - 1)
+            r1 = call(lambda: torch.vmap(f1, in_dims=(0, None))(td, other))
+            r2 = call(lambda: torch.vmap(f2, in_dims=(0, None))(td, other))
+            want2 = call(lambda: (torch.stack([f2(take(td, 0, j), other.clone(False))[0] for j in range(n)], 0),
+                                  torch.stack([f2(take(td, 0, j), other.clone(False))[1] for j in range(n)], 0)))
+            m = shape[0] + 1
+            td3 = progs.base_td((m,) + tuple(shape[1:]))
+            r3 = call(lambda: torch.vmap(f2, in_dims=(0, None))(td3, other))
+            if r1[0] != "ok" or want2[0] != "ok":
+                continue
+            if r2[0] != "ok" or not (torch.equal(r2[1][0], want2[1][0]) and torch.equal(r2[1][1], want2[1][1])):
+                R.oracle_fail("vmap-unbatched-arg-reuse", case, {"second_call": r2[1] if r2[0] != "ok" else "sees what the first call wrote",
+                                                                 "keys_seen": r2[1][0].reshape(-1).tolist()[:3] if r2[0] == "ok" else None},
+                              {"kind": "unbatched-arg-reuse", "locked": locked})
+            elif r3[0] != "ok":
+                R.oracle_fail("vmap-unbatched-arg-reuse", case, {"call_with_other_batch_size": r3[1]}, {"kind": "unbatched-arg-reuse", "locked": locked})
+            R.traces += 1
+
+
 def check_locked_reuse(R):
     """repeated vmap calls on the same locked tensordict observe its current values (batched views are memoised while locked)"""
     for kind in ("regular", "lazy"):
@@ -328,6 +380,7 @@ def main(R):
     check_programs(R)
     check_multi_arg_and_nested(R)
     check_locked_reuse(R)
+    check_unbatched_arg_reuse(R)
     check_module_calls(R)
 
 
